@@ -146,7 +146,11 @@ func genPartCase(r *simrt.Rand, maxEntries int) PartCase {
 		}
 		c.Entries = append(c.Entries, e)
 	}
-	if r.Bool(0.012) {
+	pMany := 0.012
+	if maxEntries == 24 || maxEntries == 60 { // C04 replays every such log at every cut point: fewer of them
+		pMany = 0.003
+	}
+	if r.Bool(pMany) {
 		// The entry-count limit is a property of the MERGED metadata: an item with many keys is
 		// updated with many other keys, each map valid on its own. Over the limit the update is
 		// refused and the item stays as it was; exactly at the limit it goes through.
